@@ -21,11 +21,11 @@ RULE = (
 )
 REAL = ["place_objects", "forward (update_E, update_H, curl, pad, PEC/PMC/Bloch boundaries)"]
 STUB = ["durable storage = host numpy copy", "initial fields written by the driver (no source)"]
-ASSUMPTIONS = ["float64; conservation tolerance 1e-11 relative over <= 40 steps", "energy functional re-derived from the statement (dual widths 0.5(w_i+w_{i-1}), w_-1 := w_0)"]
+ASSUMPTIONS = ["float64; conservation tolerance 2e-13 relative (measured worst 4e-16 over 400 scenes) over <= 40 steps", "energy functional re-derived from the statement (dual widths 0.5(w_i+w_{i-1}), w_-1 := w_0)"]
 TECHNIQUE = "deterministic simulation: per-step energy invariant on the driver-owned time loop with seeded crash/restore"
-LEVEL_TEXT = "Seeded exploration of closed scenes; invariant |U_n-U_0| <= 1e-11 U_0 (lossless) / U_{n+1} <= U_n (lossy) checked after every simulated step and across restores."
+LEVEL_TEXT = "Seeded exploration of closed scenes; invariant |U_n-U_0| <= 2e-13 U_0 (lossless) / U_{n+1} <= U_n (lossy) checked after every simulated step and across restores."
 LEVEL_NOTE = "float64 CPU; grids <= 10^3, <= 40 steps; oracle is an independent NumPy energy functional"
-TOL = 1e-11
+TOL = 2e-13  # measured worst drift over 400 seeded scenes (T <= 40, grids <= 9^3, far-from-origin grids included): see evidence worst_residuals
 
 
 def generate(rng, tier, index):
